@@ -791,6 +791,12 @@ hdf_get_cal(nc_type nctype, int32 hdftype, NC_attr **tmp_attr, int *curr_attr)
     int32   nt_hdftype = DFNT_INT16;
     nc_type nt_nctype  = NC_SHORT;
 
+    /* the record is stored in the byte order of the data set it belongs to:
+       the caller passes that on as the little-endian flag of hdftype */
+    int32 flavour = hdftype & DFNT_LITEND;
+
+    hdftype &= ~DFNT_LITEND;
+
     /* for DFNT_FLOAT64 based calibration */
     if (hdftype == DFNT_FLOAT64) {
         incr       = 8; /* increment 8 bytes */
@@ -798,7 +804,7 @@ hdf_get_cal(nc_type nctype, int32 hdftype, NC_attr **tmp_attr, int *curr_attr)
         nt_nctype  = NC_LONG;
     }
 
-    if (FAIL == DFKconvert((void *)ptbuf, (void *)tBuf, hdftype, 4, DFACC_READ, 0, 0)) {
+    if (FAIL == DFKconvert((void *)ptbuf, (void *)tBuf, hdftype | flavour, 4, DFACC_READ, 0, 0)) {
         HGOTO_ERROR(DFE_BADCONV, FAIL);
     }
 
@@ -854,7 +860,7 @@ hdf_get_cal(nc_type nctype, int32 hdftype, NC_attr **tmp_attr, int *curr_attr)
     }
 
     /* don't forget number_type  */
-    if (FAIL == DFKconvert((void *)(ptbuf + idx + incr), (void *)tBuf, nt_hdftype, 1, DFACC_READ, 0, 0)) {
+    if (FAIL == DFKconvert((void *)(ptbuf + idx + incr), (void *)tBuf, nt_hdftype | flavour, 1, DFACC_READ, 0, 0)) {
         HGOTO_ERROR(DFE_BADCONV, FAIL);
     }
 
@@ -1149,7 +1155,8 @@ hdf_read_ndgs(NC *handle)
                             if (Hlength(handle->hdf_file, tmpTag, tmpRef) == 36) {
                                 /* DFNT_FLOAT64 based calibration */
                                 err_code =
-                                    hdf_get_cal(NC_DOUBLE, DFNT_FLOAT64, &attrs[current_attr], &current_attr);
+                                    hdf_get_cal(NC_DOUBLE, DFNT_FLOAT64 | (HDFtype & DFNT_LITEND), &attrs[current_attr],
+                                                &current_attr);
                                 if (err_code != DFE_NONE) {
                                     HGOTO_ERROR(err_code, FAIL);
                                 }
@@ -1157,7 +1164,8 @@ hdf_read_ndgs(NC *handle)
                             else {
                                 /* DFNT_FLOAT32 based calibration */
                                 err_code =
-                                    hdf_get_cal(NC_FLOAT, DFNT_FLOAT32, &attrs[current_attr], &current_attr);
+                                    hdf_get_cal(NC_FLOAT, DFNT_FLOAT32 | (HDFtype & DFNT_LITEND), &attrs[current_attr],
+                                                &current_attr);
 
                                 if (err_code != DFE_NONE) {
                                     HGOTO_ERROR(err_code, FAIL);
